@@ -19,7 +19,7 @@ pub fn mon() -> Mon {
         replay,
         rule: "Getters of the seven public header views on raw buffers: all 2^8 (body header) and 2^16 (control header, PCI) values, and for the 32-bit headers (SMBus, transport, routing entry, IANA) a 2^24 stratified sample plus walking patterns in quick / all 2^32 values in thorough; each getter is compared with a literal (byte, shift, mask) extraction. Setters: every field x every argument value (u8: 256, u16: 65 536, u32: sample + boundaries) x raw buffers {all-0, all-1, walking 1/0, random}; the new raw buffer must equal the old one with exactly that field replaced by the value truncated to the field width. Validators: MCTPTransportHeader::new_from_buf(buf, version) must succeed iff (buf[0]>>4)==0 && (buf[0]&0xF)==version; MCTPMessageBodyHeader::new_from_buf iff bit 7 clear and type supported. Distinct non-trivial = distinct (struct, raw value) / (field, raw, value) cases (sampled into a capped hash set: one in 4096 getter cases).",
         assumptions: &["field layouts are literals transcribed from DSP0236 table 1 / DSP0237 table 1 as documented in the library's doc comments", "std::hint::black_box keeps the optimiser from folding library and oracle together"],
-        children: no_children,
+        children: rel_child_quarter,
     }
 }
 
